@@ -326,11 +326,25 @@ def not_a_proof(ctx, rng, pn, pinfos, R, proot, h):
         ('proof cell 281 bits', (G.MPROOF, bits + '1', refs)),
         ('unknown kind 5', (5, bits, refs)),
     ]
+    # shorter proof cells whose completion-tag padding reproduces the cut bits: the serialised data bytes (and d2's byte count)
+    # are those of the genuine 280-bit cell, only the bit length differs
+    for k in range(1, 8):
+        if bits[280 - k:] == '1' + '0' * (k - 1):
+            variants.append((f'proof cell {280 - k} bits, same padded data', (G.MPROOF, bits[:280 - k], refs)))
+        else:
+            variants.append((f'proof cell {280 - k} bits', (G.MPROOF, bits[:280 - k], refs)))
     for name, node in variants:
         mut = list(pn)
         mut[R] = node
         key = 'sound:rootcell' if node[0] == G.MPROOF else 'sound:notproof'
         run_proof_case(ctx, mut, R, h, 'rej', key, f'{name} accepted as Merkle proof', mut={'variant': name})
+    # an ORDINARY cell with the proof cell's exact bits and reference exists in the process before / after the genuine proof
+    # cell is built: the ordinary one is never a proof, the genuine one always is
+    if R == len(pn) - 1:
+        twin = (G.ORD, bits, refs)
+        run_proof_case(ctx, pn[:R] + [twin, pn[R]], R + 1, h, 'acc', 'complete:after-twin', 'genuine proof rejected after an ordinary cell with the same bits/refs was built')
+        run_proof_case(ctx, pn[:R] + [twin, pn[R]], R, h, 'rej', 'sound:notproof', 'ordinary twin of the proof cell accepted as Merkle proof', mut={'variant': 'twin-first'})
+        run_proof_case(ctx, pn + [twin], R + 1, h, 'rej', 'sound:notproof', 'ordinary twin built after the proof cell accepted as Merkle proof', mut={'variant': 'twin-after'})
     # the pruned tree's root itself handed in as the proof
     run_proof_case(ctx, pn, proot, h, 'rej', 'sound:notproof', 'the proof body (not wrapped) accepted as Merkle proof', mut={'variant': 'body'})
 
@@ -364,7 +378,64 @@ def forged_state_hash(ctx, rng, pn, pinfos, R, proot, h):
     ctx.expect_model(f'chkproof {dag_str(mut)} {R} {hx(h)}', lib_verdict_proof(libs[R], h), 'gray:forged-statehash')
 
 
+def kind_flips(ctx, rng, pn, pinfos, R, proot, h, budget):
+    """change only the CELL TYPE of an unpruned cell of an accepted proof (bits and references untouched): d1 changes, so the
+    hash chain breaks and the proof must be rejected - also right after the honest proof was verified in this process"""
+    cand = [j for j in range(R) if pinfos[j] is not None and pinfos[j].valid and pn[j][0] != G.PRUNED]
+    rng.shuffle(cand)
+    done = 0
+    for j in cand:
+        kind, bits, refs = pn[j]
+        for nk in (G.ORD, G.LIB, G.PRUNED, G.MPROOF, G.MUPDATE):
+            if nk == kind or done >= budget:
+                continue
+            # an exotic cell's type IS its first data byte (that is how a bag of cells carries it): only switches that keep
+            # the two consistent describe a TON cell - exotic -> ordinary always, ordinary -> X when the data starts with X's tag
+            if nk != G.ORD and (kind != G.ORD or len(bits) < 8 or int(bits[:8], 2) != nk):
+                continue
+            mut = list(pn)
+            mut[j] = (nk, bits, refs)
+            run_proof_case(ctx, mut, R, h, 'rej', 'sound:kind', f'cell type of unpruned node {j} changed {kind}->{nk} (same bits/refs) and the proof is accepted',
+                           mut={'node': j, 'kind': nk}, hdr_idx=proot, hdr_expect='rej')
+            done += 1
+
+
+def shaped_trees(ctx, rng):
+    """honest trees holding ORDINARY cells whose bits have the shape of an exotic cell (library: 02||32 bytes; pruned branch:
+    01 01||hash||depth; Merkle proof of their own child) and, conversely, exotic cells: verify the honest proof, then the
+    forgery in which just that cell's type is switched (constructible, so only the hash chain can catch it)."""
+    for t in range(ctx.n(12, 120)):
+        db = G.DagBuilder()
+        a = db.add(G.ORD, G.rand_bits(rng, rng.choice([0, 7, 32])))
+        libbits = G.bytes_to_bits(bytes([2]) + rng.randbytes(32))
+        prbits = G.make_pruned_of(db.infos[a], 1)[1]
+        mpbits = G.mproof_bits(db.infos[a])
+        shape = t % 4
+        if shape == 0:
+            c, flip = db.add(G.ORD, libbits), G.LIB
+        elif shape == 1:
+            c, flip = db.add(G.LIB, libbits), G.ORD
+        elif shape == 2:
+            c, flip = db.add(G.ORD, prbits), G.PRUNED
+        else:
+            c, flip = db.add(G.ORD, mpbits, (a,)), G.MPROOF
+        inner = db.add(G.ORD, G.rand_bits(rng, 3), (c,))
+        root = db.add(G.ORD, G.rand_bits(rng, 16), (a, inner))
+        if not db.ok(root) or db.infos[root].mask != 0:
+            continue
+        h = db.infos[root].H[0]
+        R = db.add(G.MPROOF, G.mproof_bits(db.infos[root]), (root,))
+        pn = db.nodes[:R + 1]
+        run_proof_case(ctx, pn, R, h, 'acc', 'complete:shaped', 'unpruned proof of a tree holding an exotic-shaped cell rejected')
+        mut = list(pn)
+        mut[c] = (flip, pn[c][1], pn[c][2])
+        run_proof_case(ctx, mut, R, h, 'rej', 'sound:kind', f'cell type of node {c} switched to {flip} (same bits/refs) after the honest proof was verified: accepted',
+                       mut={'node': c, 'kind': flip})
+        run_proof_case(ctx, pn, R, h, 'acc', 'complete:shaped', 'honest proof rejected after the forged one was seen')
+
+
 def generic_streams(ctx, rng):
+    shaped_trees(ctx, rng)
     n_trees = ctx.n(140, 1400)
     exhaustive_left = ctx.n(10, 60)
     for t in range(n_trees):
@@ -398,6 +469,7 @@ def generic_streams(ctx, rng):
             mutate_bits(ctx, rng, pn, R, proot, h, False, ctx.n(14, 40))
         mutate_refs(ctx, rng, pn, pinfos, R, proot, h, ctx.n(4, 12))
         forged_state_hash(ctx, rng, pn, pinfos, R, proot, h)
+        kind_flips(ctx, rng, pn, pinfos, R, proot, h, ctx.n(3, 8))
         if t % 3 == 0:
             wrong_hashes(ctx, rng, pn, pinfos, R, proot, h)
         if t % 5 == 0:
